@@ -38,6 +38,8 @@ test that selects them; a delimiter left out of the value is remembered for pack
 Round 8: a strategy built as a closure at compile time must not capture the value of
 self.field_name (Ref renames the fields it hands out); abstract intermediate bases are judged
 through their subclasses.
+Round 9: every unpack strategy decodes exactly the bytes of its field (C04's strict-decode rule:
+pack gives back the full width); every chunk goes through the collision guards of insert (C11 append).
 """
 import ast
 
